@@ -1,7 +1,6 @@
 package tcp
 
 import (
-	"bufio"
 	gkm "github.com/go-kit/kit/metrics"
 	"io"
 	"log"
@@ -42,17 +41,21 @@ func (p *SNIProxy) ServeTCP(in net.Conn) error {
 		p.Conn.Add(1)
 	}
 
-	tlsReader := bufio.NewReader(in)
-	tlsHeaders, err := tlsReader.Peek(9)
+	// Read the TLS record header and the handshake message header
+	// first, and then exactly the rest of the ClientHello, so that no
+	// data beyond it is taken from the connection before the upstream
+	// is known.
+	data := make([]byte, 9)
+	_, err := io.ReadFull(in, data)
 	if err != nil {
-		log.Print("[DEBUG] tcp+sni: TLS handshake failed (failed to peek data)")
+		log.Print("[DEBUG] tcp+sni: TLS handshake failed (failed to read TLS headers)")
 		if p.ConnFail != nil {
 			p.ConnFail.Add(1)
 		}
 		return err
 	}
 
-	bufferSize, err := clientHelloBufferSize(tlsHeaders)
+	bufferSize, err := clientHelloBufferSize(data)
 	if err != nil {
 		log.Printf("[DEBUG] tcp+sni: TLS handshake failed (%s)", err)
 		if p.ConnFail != nil {
@@ -61,8 +64,8 @@ func (p *SNIProxy) ServeTCP(in net.Conn) error {
 		return err
 	}
 
-	data := make([]byte, bufferSize)
-	_, err = io.ReadFull(tlsReader, data)
+	data = append(data, make([]byte, bufferSize-len(data))...)
+	_, err = io.ReadFull(in, data[9:])
 	if err != nil {
 		log.Printf("[DEBUG] tcp+sni: TLS handshake failed (%s)", err)
 		if p.ConnFail != nil {
@@ -140,9 +143,7 @@ func (p *SNIProxy) ServeTCP(in net.Conn) error {
 		t.RxCounter.Add(float64(n))
 	}
 
-	// read from tlsReader and not from in since the reader may have
-	// buffered data the client has sent after the ClientHello
-	err = tunnel(in, tlsReader, out, t.RxCounter, t.TxCounter)
+	err = tunnel(in, out, t.RxCounter, t.TxCounter)
 	if err != nil && err != io.EOF {
 		log.Print("[WARN]: tcp+sni:  ", err)
 		return err
